@@ -252,6 +252,25 @@ PTablesR ==
     << <<"infixr", 1, J("+")>>, <<"prefix", 2, J("*")>> >> }
 PrattRTemplates == {<<"rec", <<"pratt", PRecAtom, t, k>>>> : t \in PTablesR, k \in {"vec", "tuple"}}
                    \cup {<<"rec", <<"pratt", <<"or", PA1, <<"mw", <<"delim", Ref1, J(LP), J(RP)>>>>>>, t, "vec">>>> : t \in PTablesR}
+(* custom(..) closures as programs over InputRef's public methods (C01, C04, C05, C07, C10, C18): consuming, peeking, *)
+(* skipping, saving and rewinding by hand, running sub-parsers (which may emit) in place and abandoning them            *)
+EmAny == <<"validate", <<"any">>, "1", "F">>
+Progs ==
+  { <<"prog", << <<"n">>, <<"sv">>, <<"n">>, <<"rw">> >>, <<>>>>,                                 \* one token, one of lookahead
+    <<"prog", << <<"sv">>, <<"sub", 1>>, <<"rw">>, <<"n">> >>, <<EmAny>>>>,                        \* the emission is rewound away
+    <<"prog", << <<"sub", 1>>, <<"p", "b">>, <<"n">> >>, <<EmAny>>>>,                              \* kept only if b follows
+    <<"prog", << <<"n">>, <<"s">>, <<"f">> >>, <<>>>>,                                             \* fails after consuming, no rewind
+    <<"prog", << <<"p", "a">>, <<"s">>, <<"s">> >>, <<>>>>,                                        \* skip() at the end of input
+    <<"prog", << <<"sv">>, <<"n">>, <<"n">>, <<"rw">>, <<"sub", 1>>, <<"chk", 2>> >>, <<J("a"), J("b")>>>>,
+    <<"prog", << <<"sub", 1>>, <<"sv">>, <<"s">>, <<"rw">> >>, << <<"or", JJ("a", "b"), J("a")>> >>>>,
+    <<"prog", << <<"n">>, <<"chk", 1>>, <<"sv">>, <<"sub", 1>>, <<"rw">> >>, <<EmAny>>>> }
+ProgTemplates ==
+  Progs \cup {<<"then", pg, RestCap>> : pg \in Progs}
+  \cup {<<"or", <<"then", pg, J("!")>>, RestCap>> : pg \in Progs}
+  \cup {<<"then", <<"ornot", <<"then", pg, J("a")>>>>, RestCap>> : pg \in Progs}
+  \cup {<<"then", <<"mw", pg>>, <<"mw", RestCap>>>> : pg \in Progs}
+  \cup {<<"collect", <<"rep", pg, 0, Inf>>, "vec">> : pg \in {x \in Progs : ~CanEmpty(x)}}
+  \cup {<<"then", <<"andis", pg, <<"any">>>>, RestCap>> : pg \in Progs}
 (* one memoized parser VALUE used twice (C11): the second use at the same position must behave *)
 (* like the first; nullable memoized parsers; a memoized failure hit again after a different    *)
 (* alternative failed at the same position                                                      *)
@@ -380,12 +399,12 @@ SlcInner == {J("a"), JJ("a", "b"), <<"ornot", J("b")>>, <<"any">>, <<"collect", 
 SlcTemplates == {<<"then", <<"toslice", x>>, RestCap>> : x \in SlcInner}
                 \cup {<<"then", J("a"), <<"then", <<"toslice", x>>, RestCap>>>> : x \in SlcInner}
                 \cup {<<"then", <<"mw", <<"toslice", x>>>>, <<"toslice", RestCap>>>> : x \in SlcInner}
-Templates(fam) == CASE fam = "memoT" -> MemoTemplates [] fam = "slcT" -> SlcTemplates [] fam = "extT" -> ExtTemplates [] fam = "gapT" -> GapTemplates [] fam = "gapTi" -> {g \in GapTemplates : ~HasOp(g, {"any", "not"})} [] fam = "rcvE" -> RcvETemplates [] fam = "stat" -> StatGrammars [] fam = "rcvN" -> RcvNTemplates [] fam = "txt" -> TxtTemplates [] fam = "txtc" -> TxtCTemplates
+Templates(fam) == CASE fam = "memoT" -> MemoTemplates [] fam = "progT" -> ProgTemplates [] fam = "slcT" -> SlcTemplates [] fam = "extT" -> ExtTemplates [] fam = "gapT" -> GapTemplates [] fam = "gapTi" -> {g \in GapTemplates : ~HasOp(g, {"any", "not"})} [] fam = "rcvE" -> RcvETemplates [] fam = "stat" -> StatGrammars [] fam = "rcvN" -> RcvNTemplates [] fam = "txt" -> TxtTemplates [] fam = "txtc" -> TxtCTemplates
                     \* byte inputs have no text::newline; the radix family looks at int / digits only
                     [] fam = "txtb" -> {g \in TxtTemplates \cup TxtCTemplates : ~HasOp(g, {"newline"}) /\ g \notin {TUKw(<<"E", "a">>), <<"then", TUKw(<<"E", "a">>), RestCap>>}}
                     [] fam = "txtr" -> {<<"then", tp, RestCap>> : tp \in {TDigits(r) : r \in {"2", "8", "10", "16", "36"}} \cup {TInt(r) : r \in {"2", "8", "10", "16", "36"}}} [] fam = "drpT" -> DrpTemplates [] fam = "rcvT" -> RcvTemplates [] fam = "lblT" -> LblTemplates
                     [] fam = "pratt" -> PrattTemplates [] fam = "prattP" -> PrattPTemplates [] fam = "prattM" -> PrattMTemplates [] fam = "prattRec" -> PrattRTemplates [] fam = "rec" -> RecTemplates [] fam = "lrec" -> LRecTemplates [] fam = "repT" -> RepTemplates
-TemplateFams == {"rec", "lrec", "repT", "pratt", "prattP", "prattM", "prattRec", "memoT", "rcvT", "lblT", "drpT", "txt", "txtc", "txtb", "txtr", "gapT", "gapTi", "rcvN", "stat", "rcvE", "extT", "slcT"}
+TemplateFams == {"progT", "rec", "lrec", "repT", "pratt", "prattP", "prattM", "prattRec", "memoT", "rcvT", "lblT", "drpT", "txt", "txtc", "txtb", "txtr", "gapT", "gapTi", "rcvN", "stat", "rcvE", "extT", "slcT"}
 
 (* Instrumentation (C01, C18): every node of a grammar is wrapped in probe(enter).ignore_then(node).then_ignore(   *)
 (* probe(exit)); a probe consumes nothing, never fails and logs (id, cursor, inspector state, context), so the   *)
@@ -483,7 +502,7 @@ OffTok(o) == IF \E i \in 0..(NTok - 1) : TokStart(i) = o
              THEN Toks[(CHOOSE i \in 0..(NTok - 1) : TokStart(i) = o) + 1] ELSE ""
 FurthestFailure ==
   (st.done /\ ~st.panicked /\ ~result.ok /\ KfClean /\ Ety # "empty"
-   /\ ~HasOp(G, {"not", "recover", "label", "maperr", "nested", "pratt", "extsub"})) =>
+   /\ ~HasOp(G, {"not", "recover", "label", "maperr", "nested", "pratt", "extsub", "prog"})) =>
     LET d == DenTop
         e == result.errs[Len(result.errs)]
     IN /\ 0 <= e.s /\ e.s <= e.e /\ (~IsTree => e.e <= TotalLen)
